@@ -438,7 +438,7 @@ func (h *hist) step(s int) {
 			h.verify(b, "del", nil, "", "")
 		})
 	case op < 27: // delete range
-		st, en := h.bound(), h.bound()
+		st, en := h.fixRange(h.bound(), h.bound())
 		h.logf("%d delrange [%s,%s)", s, isNil(st), isNil(en))
 		h.kinds[rangeShape(st, en)] = true
 		h.each(func(b *backend) {
@@ -478,6 +478,7 @@ func (h *hist) step(s int) {
 		if rng.Intn(3) == 0 {
 			n = rng.Intn(4)
 		}
+		p, st = h.fixBounds(p, st)
 		h.logf("%d scan prefix=%s start=%s n=%d", s, isNil(p), isNil(st), n)
 		h.kinds["scan"] = true
 		h.each(func(b *backend) {
@@ -504,6 +505,7 @@ func (h *hist) step(s int) {
 		if rng.Intn(2) == 0 {
 			p = nil
 		}
+		p, st = h.fixBounds(p, st)
 		h.logf("%d hold it%d prefix=%s start=%s", s, slot, isNil(p), isNil(st))
 		h.kinds["hold"] = true
 		h.each(func(b *backend) {
@@ -543,7 +545,8 @@ func (h *hist) step(s int) {
 		case x < 8:
 			o = bop{kind: 'd', k: h.key()}
 		default:
-			o = bop{kind: 'r', s: h.bound(), e: h.bound()}
+			o = bop{kind: 'r'}
+			o.s, o.e = h.fixRange(h.bound(), h.bound())
 			h.kinds["batch-"+rangeShape(o.s, o.e)] = true
 		}
 		h.logf("%d b%d %c k=%x v=%s s=%s e=%s", s, slot, o.kind, o.k, isNil(o.v), isNil(o.s), isNil(o.e))
@@ -757,6 +760,28 @@ func fmtOps(ops []bop) string {
 	return s
 }
 
+// fixRange: the race build compiles Pebble with its "invariants" debug mode (build tag race),
+// in which zero-length user keys in range tombstones and seek bounds trip debug-only code
+// (testingDisableSeekOpt indexes key[0]; the rowblk fragment iterator reports "next entry
+// unexpectedly invalid" and drops such a tombstone after a reopen). None of this shows in a
+// normal build, where the default variant exercises empty bounds thousands of times. The race
+// variant therefore avoids empty range starts and empty iterator lower bounds.
+func (h *hist) fixRange(s, e []byte) ([]byte, []byte) {
+	if h.r.Race() && len(s) == 0 {
+		s = []byte{0x00}
+	}
+	return s, e
+}
+
+// fixBounds: see fixRange; in the race build an iterator never gets an empty, non-nil
+// lower bound.
+func (h *hist) fixBounds(p, st []byte) ([]byte, []byte) {
+	if h.r.Race() && len(p)+len(st) == 0 {
+		return nil, nil
+	}
+	return p, st
+}
+
 func rangeShape(s, e []byte) string {
 	switch {
 	case s == nil && e == nil:
@@ -818,13 +843,20 @@ func (h *hist) each(f func(b *backend)) {
 			defer func() {
 				if e := recover(); e != nil {
 					st := string(debug.Stack())
-					h.viol(b, "panic:"+vrt.PanicSite(st), fmt.Sprintf("panic: %v (last op: %s)", e, h.log[len(h.log)-1]))
+					h.viol(b, "panic:"+vrt.PanicSite(st), fmt.Sprintf("panic: %v (last op: %s)\n%s", e, h.log[len(h.log)-1], trimStack(st)))
 					b.dead, b.panicked = true, true
 				}
 			}()
 			f(b)
 		}()
 	}
+}
+
+func trimStack(st string) string {
+	if len(st) > 2500 {
+		return st[:2500]
+	}
+	return st
 }
 
 func (h *hist) live() []*backend {
